@@ -22,3 +22,4 @@ def rules(ctx):
     S.separator_cut_rules(ctx)
     S.leaf_width_rules(ctx)
     S.after_bound_rules(ctx)
+    S.tree_root_update_rules(ctx)
